@@ -174,7 +174,7 @@ func armWatchdog(c *Ctx, desc string) {
 // the public call set, each call under recover
 func c19CallSet(cfg Cfg, fsys *vfs.FS, knownUUID string, report func(sig, what string)) {
 	vfs.Cur = fsys
-	sod.LowercaseNames = cfg.Lower
+	setGlobals(cfg)
 	db := sod.Open(dbRoot)
 	call := func(name string, f func() error) {
 		if p := safeCall(func() { _ = f() }); p != "" {
